@@ -93,8 +93,114 @@ example : produce (cs ['i','f']) .camelLower = cs ['i','f'] ∧
     produce (cs ['\'','i','f','\'']) .camelLower = cs ['i','f'] ∧
     produce (cs ['i','f']) .camelCase = cs ['I','f'] := by decide
 
+/-- Casing style of terminal IDs: the `UpperCase` (and `UpperUnderscores`) result contains no lower-case
+letter, for every byte string. -/
+theorem C28_upper_style (name : Str) (style : Style)
+    (hs : style = .upperCase ∨ style = .upperUnderscores) (c : Nat) (hc : c ∈ produce name style) :
+    isLowerA c = false :=
+  produce_noLower name style hs c hc
+
+example : produce (cs ['t','h','i','n','A','r','r','o','w']) .upperCase =
+    cs ['T','H','I','N','A','R','R','O','W'] := by decide
+
+/-! Explicit lexeme IDs `name (ID)` (compiler/lexer.go, both the regular and the flex-mode path): the
+clause is an `identifier` token (`ID` pattern incl. keywords, never quoted); `lexemeId` mirrors what the
+compiler does with it. -/
+
+/-- exact side condition for an explicit ID: it has a lower-case letter (then it goes through
+`Produce(UpperCase)`), or it is used verbatim and has no `-` and is not the blank identifier -/
+def goodExplicit (id : Str) : Bool := id.any isLowerA || (!id.contains 45 && id != [95])
+
+/-- the statement without the side condition; refuted by `C28_explicit_id_bad_witnesses` -/
+def C28_explicit_id_valid_full : Prop := ∀ id, isID id = true → ValidIdent (lexemeId id)
+
+/-- An admitted explicit ID yields a valid identifier without lower-case letters, provided
+`goodExplicit`. -/
+theorem C28_explicit_id_valid_partial (id : Str) (hid : isID id = true) (hg : goodExplicit id = true) :
+    ValidIdent (lexemeId id) ∧ ∀ c ∈ lexemeId id, isLowerA c = false := by
+  unfold lexemeId
+  by_cases hl : id.any isLowerA = true
+  · simp only [hl, if_true]
+    refine ⟨?_, fun c hc => produce_noLower id .upperCase (Or.inl rfl) c hc⟩
+    apply produce_id_valid id .upperCase hid
+    left
+    obtain ⟨b, hb, hbl⟩ := List.any_eq_true.1 hl
+    exact List.any_eq_true.2 ⟨b, hb, by simp [isAlnum, hbl]⟩
+  · have hl' : id.any isLowerA = false := by simpa using hl
+    simp only [hl', Bool.false_eq_true, if_false]
+    refine ⟨?_, fun c hc => List.any_eq_false.1 hl' c hc |> fun h => by simpa using h⟩
+    simp only [goodExplicit, hl', Bool.false_or, Bool.and_eq_true, Bool.not_eq_true',
+      bne_iff_ne, ne_eq] at hg
+    obtain ⟨h45, h95⟩ := hg
+    obtain ⟨hmid, _⟩ := isID_facts id hid
+    cases id with
+    | nil => simp [isID] at hid
+    | cons b rest =>
+      have hstart : isIdStart b = true := by
+        simp only [isID, Bool.and_eq_true] at hid; exact hid.1.1
+      have hall : (b :: rest).all isIdentChar = true := by
+        rw [List.all_eq_true]
+        intro x hx
+        have hm := hmid x hx
+        have hx45 : x ≠ 45 := by
+          intro h; subst h
+          have : (b :: rest).contains 45 = true := List.contains_iff_mem.2 hx
+          rw [this] at h45; cases h45
+        simp [isIdMid] at hm
+        simp [isIdentChar]
+        rcases hm with ((h | h) | h) | h
+        · exact Or.inl (Or.inl h)
+        · exact Or.inl (Or.inr h)
+        · exact Or.inr h
+        · exact absurd h hx45
+      have hd : isDigitA b = false := by
+        simp [isIdStart, isLetterA, isLowerA, isUpperA] at hstart
+        simp [isDigitA]; omega
+      unfold ValidIdent validIdent
+      simp only [hd, hall, Bool.not_false, Bool.true_and, Bool.not_eq_true', Bool.and_eq_false_iff]
+      by_cases hb : b = 95
+      · right
+        cases rest with
+        | nil => subst hb; exact absurd rfl h95
+        | cons _ _ => rfl
+      · left; simpa using hb
+
+example : isID (cs ['f','a','t','-','A','r','r','o','w']) = true ∧
+    goodExplicit (cs ['f','a','t','-','A','r','r','o','w']) = true ∧
+    lexemeId (cs ['f','a','t','-','A','r','r','o','w']) = cs ['F','A','T','A','R','R','O','W'] := by decide
+
+/-- `goodExplicit` is exact. -/
+theorem C28_explicit_id_invalid (id : Str) (hid : isID id = true) (hg : goodExplicit id = false) :
+    ¬ ValidIdent (lexemeId id) := by
+  simp only [goodExplicit, Bool.or_eq_false_iff, Bool.and_eq_false_iff, Bool.not_eq_false',
+    bne_eq_false_iff_eq] at hg
+  obtain ⟨hl, h⟩ := hg
+  unfold lexemeId
+  simp only [hl, Bool.false_eq_true, if_false]
+  rcases h with h | h
+  · have hm : 45 ∈ id := List.contains_iff_mem.1 h
+    unfold ValidIdent validIdent
+    cases id with
+    | nil => simp
+    | cons b rest =>
+      have : (b :: rest).all isIdentChar = false := by
+        rw [List.all_eq_false]; exact ⟨45, hm, by decide⟩
+      simp [this]
+  · subst h; decide
+
+/-- Concrete failures for explicit IDs: `(A-B)` and `(_)` are admitted `identifier` tokens, are taken
+verbatim and are not valid identifiers. -/
+theorem C28_explicit_id_bad_witnesses :
+    (isID (cs ['A','-','B']) = true ∧ lexemeId (cs ['A','-','B']) = cs ['A','-','B'] ∧
+      ¬ ValidIdent (lexemeId (cs ['A','-','B']))) ∧
+    (isID [95] = true ∧ lexemeId [95] = [95] ∧ ¬ ValidIdent (lexemeId [95])) ∧
+    ¬ C28_explicit_id_valid_full := by
+  refine ⟨by decide, by decide, ?_⟩
+  intro h
+  exact absurd (h (cs ['A','-','B']) (by decide)) (by decide)
+
 /-- Duplicate detection (mirror of `resolver.addToken` / `syntaxLoader.collectNonterms` /
-`resolver.addNonterms` as sequenced by `compiler.Compile`): whenever two declared symbols (terminals
+`resolver.addNonterms` as sequenced by `compiler.Compile`, regular and flex-mode lexer sections): whenever two declared symbols (terminals
 incl. `eoi`/`invalid_token`, accepted nonterminals) receive the same ID, an error is reported. -/
 theorem C28_dup_detect (d : Decls) (h : ¬ (declaredIds d).Nodup) : (compileSyms d).errs ≠ [] := by
   have hinv := tokenPhase_inv d
@@ -116,7 +222,7 @@ theorem C28_dup_detect (d : Decls) (h : ¬ (declaredIds d).Nodup) : (compileSyms
     simp [hasDup] at this
   · next hemp => simpa [List.isEmpty_iff] using hemp
 
-example : ¬ (declaredIds ⟨[(cs ['a','_','b'], []), (cs ['A','_','B'], [])], []⟩).Nodup := by decide
+example : ¬ (declaredIds ⟨[(cs ['a','_','b'], []), (cs ['A','_','B'], [])], [], false⟩).Nodup := by decide
 
 /-- …and a "get the same ID" error is reported only when two declared symbols do collide. -/
 theorem C28_dup_sound (d : Decls) (h : hasDup (compileSyms d).errs = true) :
@@ -149,7 +255,7 @@ theorem C28_dup_sound (d : Decls) (h : hasDup (compileSyms d).errs = true) :
       · simp only [hemp]
         exact List.mem_map_of_mem hn
 
-example : hasDup (compileSyms ⟨[(cs ['a'], [])], [cs ['i','n','p','u','t'], cs ['A']]⟩).errs = true := by
+example : hasDup (compileSyms ⟨[(cs ['a'], [])], [cs ['i','n','p','u','t'], cs ['A']], false⟩).errs = true := by
   decide
 
 end TmVerif.Ident
